@@ -153,6 +153,8 @@ pub enum Op {
     CanRead,
     CanWrite,
     SetBuf(usize, usize),
+    /// set_config(max_message_size, max_frame_size, accept_unmasked_frames) — not in the model (impl-only cases)
+    SetLimits(Option<usize>, Option<usize>, bool),
 }
 
 pub fn parse_usize_or_inf(s: &str) -> usize {
@@ -184,6 +186,7 @@ pub fn op_of(s: &str) -> Result<Op, String> {
         ["c", "-"] => Op::Close(None),
         ["c", c, h] => Op::Close(close_of(c, h)?),
         ["sb", a, b] => Op::SetBuf(a.parse().unwrap(), parse_usize_or_inf(b)),
+        ["sl", a, b, c] => Op::SetLimits(opt_usize(a), opt_usize(b), *c == "1"),
         _ => return Err(format!("bad op {s}")),
     })
 }
@@ -247,6 +250,14 @@ pub fn run_ops_on(ws: &mut WebSocket<Script>, ops: Vec<Op>, mut upto: usize, out
                 });
                 "ok".into()
             }
+            Op::SetLimits(a, b, c) => {
+                ws.set_config(|cfg| {
+                    cfg.max_message_size = a;
+                    cfg.max_frame_size = b;
+                    cfg.accept_unmasked_frames = c;
+                });
+                "ok".into()
+            }
         }));
         if i > 0 || !first {
             out.push_str(" | ");
@@ -277,7 +288,8 @@ fn run_socket(f: &[&str]) -> Result<(String, String), String> {
     cfg.max_message_size = opt_usize(f[5]);
     cfg.max_frame_size = opt_usize(f[6]);
     cfg.accept_unmasked_frames = f[7] == "1";
-    cfg.read_buffer_size = f[8].parse().unwrap();
+    let via_set_config = f[8].ends_with("@sc");
+    cfg.read_buffer_size = f[8].trim_end_matches("@sc").parse().unwrap();
     let seed: u32 = f[9].parse().unwrap();
     let pre = unhex(f[10]);
     let mut ops = Vec::new();
@@ -292,11 +304,18 @@ fn run_socket(f: &[&str]) -> Result<(String, String), String> {
 
     let mut out = String::new();
     let created = catch_unwind(AssertUnwindSafe(|| {
-        if pre.is_empty() {
-            WebSocket::from_raw_socket(script, role, Some(cfg))
+        // "@sc": build with the default configuration (only read_buffer_size given) and install the case's
+        // configuration with set_config before the first op: every field must be propagated at run time
+        let initial = if via_set_config { WebSocketConfig::default().read_buffer_size(cfg.read_buffer_size) } else { cfg };
+        let mut ws = if pre.is_empty() {
+            WebSocket::from_raw_socket(script, role, Some(initial))
         } else {
-            WebSocket::from_partially_read(script, pre.clone(), role, Some(cfg))
+            WebSocket::from_partially_read(script, pre.clone(), role, Some(initial))
+        };
+        if via_set_config {
+            ws.set_config(|c| *c = cfg);
         }
+        ws
     }));
     let mut ws = match created {
         Ok(ws) => ws,
@@ -321,6 +340,9 @@ pub fn join_or_dash(v: &[String]) -> String {
 /// the same case line with the transport outcomes as they actually happened
 fn model_line(f: &[&str], s: Option<&Script>) -> String {
     let mut g: Vec<String> = f.iter().map(|x| x.to_string()).collect();
+    if g.len() > 8 {
+        g[8] = g[8].trim_end_matches("@sc").to_string();
+    }
     if let Some(s) = s {
         g[12] = join_or_dash(&s.actual_rds);
         g[13] = join_or_dash(&s.actual_wrs);
@@ -527,6 +549,57 @@ fn run_framesocket(f: &[&str]) -> Result<(String, String), String> {
     Ok((g.join(" "), out))
 }
 
+/// EP id : configuration plumbing. Builder setters must set the field they name, and every constructor / handshake
+/// entry point that takes a config must hand exactly that config to the socket (impl-only case; monitor wants all "ok").
+fn run_entry_points(_f: &[&str]) -> String {
+    let mut out: Vec<String> = vec![];
+    let mut ck = |name: &str, ok: bool| out.push(format!("{}={}", name, if ok { "ok" } else { "BAD" }));
+    let c = WebSocketConfig::default()
+        .read_buffer_size(1111)
+        .write_buffer_size(2222)
+        .max_write_buffer_size(3333)
+        .max_message_size(Some(4444))
+        .max_frame_size(Some(5555))
+        .accept_unmasked_frames(true);
+    ck("setters", c.read_buffer_size == 1111 && c.write_buffer_size == 2222 && c.max_write_buffer_size == 3333
+        && c.max_message_size == Some(4444) && c.max_frame_size == Some(5555) && c.accept_unmasked_frames);
+    let same = |a: &WebSocketConfig| {
+        a.read_buffer_size == 1111 && a.write_buffer_size == 2222 && a.max_write_buffer_size == 3333
+            && a.max_message_size == Some(4444) && a.max_frame_size == Some(5555) && a.accept_unmasked_frames
+    };
+    let d = WebSocketConfig::default();
+    let is_default = |a: &WebSocketConfig| {
+        a.read_buffer_size == d.read_buffer_size && a.write_buffer_size == d.write_buffer_size
+            && a.max_write_buffer_size == d.max_write_buffer_size && a.max_message_size == d.max_message_size
+            && a.max_frame_size == d.max_frame_size && a.accept_unmasked_frames == d.accept_unmasked_frames
+    };
+    let mk = || Script::parse(&[], &[], &[]).unwrap();
+    ck("from_raw_socket", same(WebSocket::from_raw_socket(mk(), Role::Server, Some(c)).get_config()));
+    ck("from_raw_socket_none", is_default(WebSocket::from_raw_socket(mk(), Role::Client, None).get_config()));
+    ck("from_partially_read", same(WebSocket::from_partially_read(mk(), vec![1, 2], Role::Client, Some(c)).get_config()));
+    {
+        let mut ws = WebSocket::from_raw_socket(mk(), Role::Server, None);
+        ws.set_config(|x| *x = c);
+        ck("set_config", same(ws.get_config()));
+    }
+    let req = b"GET / HTTP/1.1\r\nHost: h\r\nConnection: Upgrade\r\nUpgrade: websocket\r\nSec-WebSocket-Version: 13\r\nSec-WebSocket-Key: dGhlIHNhbXBsZSBub25jZQ==\r\n\r\n";
+    let srv = |cfgd: bool, hdr: bool| -> Option<WebSocketConfig> {
+        let s = Script::parse(&[&format!("d:{}", hex(req))], &[], &[]).unwrap();
+        let r = match (cfgd, hdr) {
+            (true, false) => tungstenite::accept_with_config(s, Some(c)).ok(),
+            (false, false) => tungstenite::accept(s).ok(),
+            (true, true) => tungstenite::accept_hdr_with_config(s, |_: &tungstenite::handshake::server::Request, r: tungstenite::handshake::server::Response| Ok(r), Some(c)).ok(),
+            (false, true) => tungstenite::accept_hdr(s, |_: &tungstenite::handshake::server::Request, r: tungstenite::handshake::server::Response| Ok(r)).ok(),
+        };
+        r.map(|ws| *ws.get_config())
+    };
+    ck("accept_with_config", srv(true, false).map(|x| same(&x)).unwrap_or(false));
+    ck("accept", srv(false, false).map(|x| is_default(&x)).unwrap_or(false));
+    ck("accept_hdr_with_config", srv(true, true).map(|x| same(&x)).unwrap_or(false));
+    ck("accept_hdr", srv(false, true).map(|x| is_default(&x)).unwrap_or(false));
+    out.join(" ")
+}
+
 /// KS id role n : write n small binary messages on a fresh socket with an accepting transport and report statistics of
 /// the mask keys found on the wire (meaningful only in the build WITHOUT the deterministic-mask hook)
 fn run_key_stats(f: &[&str]) -> String {
@@ -630,6 +703,7 @@ fn main() {
                 "U8" => (line.clone(), run_utf8(&f)),
                 "MK" => (line.clone(), run_mask(&f).unwrap_or_else(|e| format!("bad-case:{e}"))),
                 "KS" => (line.clone(), run_key_stats(&f)),
+                "EP" => (line.clone(), run_entry_points(&f)),
                 "FS" => match run_framesocket(&f) {
                     Ok((m, t)) => (m, t),
                     Err(e) => (line.clone(), format!("bad-case:{e}")),
